@@ -31,7 +31,8 @@ func inScope(id gno.ObjectID) bool { return !id.PkgID.IsImmutablePkg() }
 //	dangling       a persisted reference to an object that is not in the store
 //	refcount       RefCount != number of persisted references to the object
 //	owner-missing  singly referenced, never escaped, but no owner recorded
-//	owner-extra    an owner recorded although escaped or multiply referenced
+//	owner-on-escaped  an owner recorded on a singly referenced object that HAS escaped
+//	owner-extra    an owner recorded on an object that is not singly referenced
 //	owner-stale    the recorded owner does not hold a reference to the object (or does not exist)
 //	unreachable    not reachable from a package value and not kept alive by a reference cycle
 func CheckGraph(s *Snap) string {
@@ -89,6 +90,8 @@ func CheckGraph(s *Snap) string {
 		switch {
 		case single && o.Info.OwnerID.IsZero():
 			return "VIOL:owner-missing " + Short(id)
+		case !single && !o.Info.OwnerID.IsZero() && o.Info.RefCount == 1:
+			return fmt.Sprintf("VIOL:owner-on-escaped %s rc=1 esc=true owner=%s", Short(id), Short(o.Info.OwnerID))
 		case !single && !o.Info.OwnerID.IsZero():
 			return fmt.Sprintf("VIOL:owner-extra %s rc=%d esc=%v owner=%s", Short(id), o.Info.RefCount, o.Info.IsEscaped, Short(o.Info.OwnerID))
 		case single && !holds(o.Info.OwnerID, id):
